@@ -1,11 +1,16 @@
 /- Line-protocol driver: `<stream> <op> args…` per line on stdin, one canonical result line each. -/
 import Schc.Drv.BufStream
+import Schc.Drv.SchcStream
 
 open Schc.Drv
 
 def handle (line : String) : String :=
   match (line.trimAscii.toString.splitOn " ").filter (· ≠ "") with
   | "buf" :: rest => (bufOp rest).getD "bad-op"
+  | "len" :: rest => (lenOp rest).getD "bad-op"
+  | "schc" :: rest => (schcOp rest).getD "bad-op"
+  | "parse" :: rest => (parseOp rest).getD "bad-op"
+  | "compute" :: rest => (computeOp rest).getD "bad-op"
   | _ => "bad-op"
 
 partial def loop (h : IO.FS.Stream) (out : IO.FS.Stream) : IO Unit := do
